@@ -44,6 +44,7 @@ type Path struct {
 	nondetLog []nondetRec
 	outs      []string
 	choices   map[string]int64
+	facts     map[*Term]bool
 }
 
 type nondetRec struct {
@@ -172,10 +173,10 @@ func (in *Interp) pickOrder(extra *Term) []*Solver {
 	if len(in.solvers) <= 1 {
 		return in.solvers
 	}
-	useInt := extra != nil && extra.hasInt
+	useInt := extra != nil && extra.hasMix
 	if !useInt {
 		for _, c := range in.path.pc {
-			if c.hasInt {
+			if c.hasMix {
 				useInt = true
 				break
 			}
@@ -194,13 +195,62 @@ func (in *Interp) pickOrder(extra *Term) []*Solver {
 
 func (in *Interp) addPC(c *Term) {
 	in.path.pc = append(in.path.pc, c)
+	in.noteFact(c, 0)
+}
+
+// noteFact records c (and, through conjunctions, its parts) as syntactically known on this path.
+func (in *Interp) noteFact(c *Term, depth int) {
+	p := in.path
+	if p.facts == nil {
+		p.facts = map[*Term]bool{}
+	}
+	if p.facts[c] || depth > 200 {
+		return
+	}
+	p.facts[c] = true
+	switch c.op {
+	case OAnd:
+		in.noteFact(c.args[0], depth+1)
+		in.noteFact(c.args[1], depth+1)
+	case ONot:
+		if o := c.args[0]; o.op == OOr {
+			in.noteFact(in.tt.Not(o.args[0]), depth+1)
+			in.noteFact(in.tt.Not(o.args[1]), depth+1)
+		}
+	}
+}
+
+// knownFact: 1 = c is syntactically implied by the path condition, -1 = its negation is, 0 = unknown.
+func (in *Interp) knownFact(c *Term) int {
+	p := in.path
+	if p.facts == nil {
+		return 0
+	}
+	if p.facts[c] {
+		return 1
+	}
+	if p.facts[in.tt.Not(c)] {
+		return -1
+	}
+	if c.op == OAnd {
+		a, b := in.knownFact(c.args[0]), in.knownFact(c.args[1])
+		if a == 1 && b == 1 {
+			return 1
+		}
+		if a == -1 || b == -1 {
+			return -1
+		}
+	}
+	return 0
 }
 
 func (in *Interp) check(extra *Term) Verdict {
 	v := Unknown
 	for _, s := range in.pickOrder(extra) {
 		if s.dead {
-			continue
+			if err := s.Restart(); err != nil {
+				continue
+			}
 		}
 		in.syncOne(s)
 		if extra == nil {
@@ -242,6 +292,14 @@ func (in *Interp) branch(c *Term) bool {
 			}
 		}
 		return k&1 == 1
+	}
+	switch in.knownFact(c) {
+	case 1:
+		p.taken = append(p.taken, 3)
+		return true
+	case -1:
+		p.taken = append(p.taken, 2)
+		return false
 	}
 	vt := in.check(c)
 	if vt == Unsat {
@@ -427,7 +485,7 @@ func (in *Interp) assertProp(c *Term, label string, known *Term, knownID string)
 	st := ex.assertStat(label)
 	st.Checks++
 	ex.mu.Unlock()
-	if c.IsTrue() {
+	if c.IsTrue() || in.knownFact(c) == 1 {
 		ex.mu.Lock()
 		st.Trivial++
 		st.Discharged++
@@ -570,7 +628,7 @@ func newInterp(job *Job, ex *Explorer) (*Interp, error) {
 	s := solvers[0]
 	in := &Interp{solvers: solvers, prog: job.Prog, tt: NewTermTable(), globals: map[*ssa.Global]*Value{}, initState: map[*ssa.Package]int{},
 		cfg: job.Cfg, ex: ex, solver: s, intrCache: map[*ssa.Function]intrinsicFn{}, overrides: map[*ssa.Function]*ssa.Function{},
-		funcsSeen: map[*ssa.Function]bool{}, warnings: map[string]bool{}}
+		funcsSeen: map[*ssa.Function]bool{}, warnings: map[string]bool{}, builtPkgs: map[*ssa.Package]bool{}}
 	in.trace = os.Getenv("GOSYM_TRACE") != ""
 	if d := os.Getenv("GOSYM_SMTLOG"); d != "" {
 		ex.mu.Lock()
@@ -603,6 +661,11 @@ func (in *Interp) runPath(entry *ssa.Function, prefix []int64) {
 			case targetPanic, runtimeError:
 				endKind = "panic"
 				endMsg = panicString(r)
+				if in.check(nil) != Sat {
+					// the path condition could not be confirmed satisfiable: not reported as a violation
+					endKind = "panic-unconfirmed"
+					return
+				}
 				model, order := in.modelFor(nil)
 				ex.addViolation(&Violation{Label: "no-panic", Kind: "panic", Msg: endMsg, Decisions: append([]int64{}, in.path.taken...), Model: model, Order: order})
 			default:
